@@ -216,6 +216,7 @@ def resolve_strategy_inline_attachments(base_path, attachments, decisions):
 
             local_name = "LOCAL_" + key
             remote_name = "REMOTE_" + key
+            replaced_names.update((local_name, remote_name))
 
             custom_diff = []
 
@@ -223,7 +224,6 @@ def resolve_strategy_inline_attachments(base_path, attachments, decisions):
                 nbdime.log.warning(
                     "Replacing previous conflicted attachment with filename %r", local_name)
                 custom_diff += [op_replace(local_name, local)]
-                replaced_names.add(local_name)
             else:
                 custom_diff += [op_add(local_name, local)]
 
@@ -231,15 +231,15 @@ def resolve_strategy_inline_attachments(base_path, attachments, decisions):
                 nbdime.log.warning(
                     "Replacing previous conflicted attachment with filename %r", remote_name)
                 custom_diff += [op_replace(remote_name, remote)]
-                replaced_names.add(remote_name)
             else:
                 custom_diff += [op_add(remote_name, remote)]
 
             decisions.custom(base_path, ld, rd, custom_diff, conflict=True, strategy=strategy)
 
     if replaced_names:
-        # Attachments left over from a previous merge are replaced above, so
-        # changes that one side made to those leftovers are superseded
+        # Attachments left over from a previous merge (in base, or carried by
+        # one side only) are superseded by the ones written above, and so are
+        # the changes that one side made to those leftovers
         level = len(base_path)
 
         def on_replaced(d):
@@ -478,13 +478,13 @@ def resolve_strategy_record_conflicts(base_path, base, decisions):
     #conflict_decisions = [d for d in decisions if d.conflict]
     decisions.decisions = [d for d in decisions if not d.conflict]
 
-    if "nbdime-conflicts" in base:
-        # The record of a previous merge is replaced below, so changes
-        # that one side made to that old record are superseded
-        def on_old_record(d):
-            entries = list(d.local_diff or ()) + list(d.remote_diff or ())
-            return entries and all(e.key == "nbdime-conflicts" for e in entries)
-        decisions.decisions = [d for d in decisions if not on_old_record(d)]
+    # The record of a previous merge (in base, or carried by one side only)
+    # is superseded by the record written below, and so are the changes
+    # that one side made to it
+    def on_old_record(d):
+        entries = list(d.local_diff or ()) + list(d.remote_diff or ())
+        return entries and all(e.key == "nbdime-conflicts" for e in entries)
+    decisions.decisions = [d for d in decisions if not on_old_record(d)]
 
     # Record remaining conflicts in field nbdime-conflicts
     conflicts_dict = {
